@@ -29,6 +29,22 @@ def gen(depth, leaves):
         if nm in ("asin", "acos"):
             a, da = aml.sin(a) * 0.9, "0.9sin(%s)" % da
         return f(a), "%s(%s)" % (nm, da)
+    r_ = rng.random()
+    if r_ < 0.12 and depth >= 2:
+        # a shared sub-expression consumed twice, the second time AFTER a consumer that contains it (either operand order): c = (a op x) op2 a
+        a, da = gen(depth - 2, leaves)
+        if hasattr(a, "is_leaf"):
+            x, dx = gen(depth - 2, leaves)
+            inner = a + x if rng.random() < 0.5 else a * x
+            nm2, f2 = rng.choice(BIN[:3])
+            return (f2(inner, a), "((%s . %s) %s %s)" % (da, dx, nm2, da)) if rng.random() < 0.5 else (f2(a, inner), "(%s %s (%s . %s))" % (da, nm2, da, dx))
+    if r_ < 0.2 and depth >= 2:
+        # the signed square of a shared non-leaf node: e*abs(e) / abs(e)*e (the Darcy-type terms of the hydraulic model)
+        a, da = gen(depth - 2, leaves)
+        if hasattr(a, "is_leaf"):
+            e_ = a - rng.choice(leaves[:1])[0]
+            KINK[0] = True
+            return (e_ * aml.abs(e_), "signed_square(%s)" % da) if rng.random() < 0.5 else (aml.abs(e_) * e_, "signed_square'(%s)" % da)
     nm, f = rng.choice(BIN)
     a, da = gen(depth - 1, leaves)
     b, db = (a, da) if rng.random() < 0.2 else gen(depth - 1, leaves)
@@ -112,7 +128,7 @@ for it in range(N):
     nsteps = rng.randint(2, 5)
     k = 0
     for step in range(nsteps):
-        action = rng.choice(["add", "add", "add_cond", "remove", "set_value", "add_dict", "del_dict"])
+        action = rng.choice(["add", "add", "add_cond", "remove", "set_value", "load_and_restore", "add_dict", "del_dict"])
         try:
             if action == "add" or not cons:
                 KINK[0] = False
@@ -159,6 +175,16 @@ for it in range(N):
                 v.value = rng.uniform(0.2, 2.0)
                 p.value = rng.uniform(0.5, 3.0)
                 history.append("set values")
+            elif action == "load_and_restore" and cons:
+                # the solver loads another point into the compiled side; assigning the old values again must take effect
+                m.set_structure()
+                x0 = [v.value for v in vars_]
+                m.load_var_values_from_x(np.array([rng.uniform(0.2, 2.0) for _ in range(len(m.get_x()))]))
+                for v, old in zip(vars_, x0):
+                    v.value = old
+                    if v.value != old:
+                        failures.append(dict(tag="model %d" % it, what="assigning %r to %s after load_var_values_from_x was ignored: it reads %r" % (old, v.name, v.value)))
+                history.append("load another point, assign the old values again")
             elif action == "add_dict" and not hasattr(m, "cd"):
                 m.cd = aml.ConstraintDict()
                 for key in ("a", "b"):
